@@ -183,14 +183,38 @@ void BW_MidiSequencer::MidiTrackRow::sortEvents(bool *noteStates)
     EvtArr noteOffs;
     EvtArr controllers;
     EvtArr anyOther;
+    std::set<size_t> closedOlderNotes;
 
     for(size_t i = 0; i < events.size(); i++)
     {
         if(events[i].type == MidiEvent::T_NOTEOFF)
         {
-            if(noteOffs.capacity() == 0)
-                noteOffs.reserve(events.size());
-            noteOffs.push_back(events[i]);
+            /*
+             * A Note-Off goes in front of the row only when it ends a note that was sounding before this row
+             * (so a note may end and start again at one tick whatever the file order). Any other Note-Off of the
+             * row belongs to a Note-On of the same row (zero-length note) and keeps its place in file order.
+             */
+            bool endsOlderNote = true;
+            if(noteStates)
+            {
+                const size_t note_i = static_cast<size_t>(events[i].channel * 255) + (events[i].data[0] & 0x7F);
+                endsOlderNote = noteStates[note_i] && (closedOlderNotes.find(note_i) == closedOlderNotes.end());
+                if(endsOlderNote)
+                    closedOlderNotes.insert(note_i);
+            }
+
+            if(endsOlderNote)
+            {
+                if(noteOffs.capacity() == 0)
+                    noteOffs.reserve(events.size());
+                noteOffs.push_back(events[i]);
+            }
+            else
+            {
+                if(anyOther.capacity() == 0)
+                    anyOther.reserve(events.size());
+                anyOther.push_back(events[i]);
+            }
         }
         else if(events[i].type == MidiEvent::T_SYSEX ||
                 events[i].type == MidiEvent::T_SYSEX2)
@@ -232,60 +256,24 @@ void BW_MidiSequencer::MidiTrackRow::sortEvents(bool *noteStates)
     }
 
     /*
-     * If Note-Off and it's Note-On is on the same row - move this damned note off down!
+     * Remember the on/off state every note is left in by this row, following the order of delivery
      */
     if(noteStates)
     {
-        std::set<size_t> markAsOn;
-        for(size_t i = 0; i < anyOther.size(); i++)
-        {
-            const MidiEvent e = anyOther[i];
-            if(e.type == MidiEvent::T_NOTEON)
-            {
-                const size_t note_i = static_cast<size_t>(e.channel * 255) + (e.data[0] & 0x7F);
-                //Check, was previously note is on or off
-                bool wasOn = noteStates[note_i];
-                markAsOn.insert(note_i);
-                // Detect zero-length notes are following previously pressed note
-                int noteOffsOnSameNote = 0;
-                for(EvtArr::iterator j = noteOffs.begin(); j != noteOffs.end();)
-                {
-                    // If note was off, and note-off on same row with note-on - move it down!
-                    if(
-                        ((*j).channel == e.channel) &&
-                        ((*j).data[0] == e.data[0])
-                    )
-                    {
-                        // If note is already off OR more than one note-off on same row and same note
-                        if(!wasOn || (noteOffsOnSameNote != 0))
-                        {
-                            anyOther.push_back(*j);
-                            j = noteOffs.erase(j);
-                            markAsOn.erase(note_i);
-                            continue;
-                        }
-                        else
-                        {
-                            // When same row has many note-offs on same row
-                            // that means a zero-length note follows previous note
-                            // it must be shuted down
-                            noteOffsOnSameNote++;
-                        }
-                    }
-                    j++;
-                }
-            }
-        }
-
-        // Mark other notes as released
         for(EvtArr::iterator j = noteOffs.begin(); j != noteOffs.end(); j++)
         {
             size_t note_i = static_cast<size_t>(j->channel * 255) + (j->data[0] & 0x7F);
             noteStates[note_i] = false;
         }
 
-        for(std::set<size_t>::iterator j = markAsOn.begin(); j != markAsOn.end(); j++)
-            noteStates[*j] = true;
+        for(size_t i = 0; i < anyOther.size(); i++)
+        {
+            const MidiEvent &e = anyOther[i];
+            if(e.type != MidiEvent::T_NOTEON && e.type != MidiEvent::T_NOTEOFF)
+                continue;
+            const size_t note_i = static_cast<size_t>(e.channel * 255) + (e.data[0] & 0x7F);
+            noteStates[note_i] = (e.type == MidiEvent::T_NOTEON);
+        }
     }
     /***********************************************************************************/
 
